@@ -852,7 +852,7 @@ func (fc *FuncCtx) typeMatch(st *State, v Term, target types.Type) (string, Term
 		}
 	}
 	val := fc.fresh("unbox", target)
-	return "(and ((_ is any_other) " + v.S + ") (= (any_oty " + v.S + ") " + id + "))", val
+	return "(= " + anyTypeID(v.S) + " " + id + ")", val
 }
 
 func (fc *FuncCtx) chanRecv(st *State, x *ast.UnaryExpr) Term {
